@@ -253,7 +253,7 @@ def o_label_never_in_arithmetic(ctx):
     ctx.claim('shift-invariant', eq(kb - ka, (n2 - n1) * 1000))
 
 
-def mk_pipeline_relabelling(first, second, ter):
+def mk_pipeline_relabelling(first, second, ter, with_altloc=False):
     """whole pipeline on two chains written one after the other (with or without a TER record between them): renaming
     the second chain and shifting its residue numbers by a constant -- in particular so that its numbers collide with
     those of the first chain -- changes labels only"""
@@ -261,15 +261,28 @@ def mk_pipeline_relabelling(first, second, ter):
         from . import micro as M
         t1 = '\n'.join(l for l in M.text(first).split('\n') if l and not l.startswith('TER')) + '\n' + ('TER   \n' if ter else '')
         n1 = sorted({int(l[22:26]) for l in t1.split('\n') if l.startswith('ATOM')})
-        base_txt = t1 + M.renumber(M.text(second), 500, 'B')
+        t2 = M.text(second)
+        if with_altloc:
+            # one atom of the second chain in two alternate locations: a second conformation exists and is topped up
+            cb = [l for l in t2.split('\n') if l.startswith('ATOM') and l[12:16].strip() == 'CB'][1]
+            t2 = M.altloc(t2, int(cb[22:26]), 'CB')
+        base_txt = t1 + M.renumber(t2, 500, 'B')
         start = ctx.choice('second_chain_starts_at', [n1[-1], n1[-1] + 1, n1[-1] - 1, n1[0], n1[0] - len(n1), 1, -5, -150, 3000])
         chain = ctx.choice('second_chain_id', ['B', 'Z', 'a', '2'])
-        rel_txt = t1 + M.renumber(M.text(second), start, chain)
+        rel_txt = t1 + M.renumber(t2, start, chain)
         base = M.run(base_txt)
         rel = M.run(rel_txt)
 
         def key(g):
             return (g.type, g.atom.name, round(g.atom.x, 3), round(g.atom.y, 3), round(g.atom.z, 3))
+        # in every conformation the groups come in the order of the file, whatever the chains are called (the pair handlers
+        # are order sensitive)
+        ctx.claim('same-conformations', list(base.conformation_names) == list(rel.conformation_names))
+        for cn in base.conformation_names:
+            if cn in rel.conformations:
+                ob = [(g.type, g.atom.name, round(g.atom.x, 3)) for g in base.conformations[cn].groups]
+                orl = [(g.type, g.atom.name, round(g.atom.x, 3)) for g in rel.conformations[cn].groups]
+                ctx.claim('group-order-follows-the-file', ob == orl, detail='%s: first difference at %r' % (cn, [i for i, (x, y) in enumerate(zip(ob, orl)) if x != y][:1]))
         gb = {key(g): g for g in base.conformations['1A'].groups}
         gr = {key(g): g for g in rel.conformations['1A'].groups}
         ctx.claim('same-groups-up-to-labels', sorted(gb) == sorted(gr), detail='only in one: %r' % (sorted(set(gb) ^ set(gr))[:4],))
@@ -312,6 +325,11 @@ def obligations(tier):
                    bounds='two residue numbers in [-999,9999] in one chain', claim_doc='order of numbers kept; key difference = 1000 * number difference'),
     ]
     BR = ('pair_CYS_CYS_bridge:41-43', 'pair_CYS_CYS_bridge:57-59', True)     # a disulfide between the two chains
+    for first, second, ter in ([('pair_LYS_ASP', 'tri_HIS', True)] if tier == 'quick' else [('pair_LYS_ASP', 'tri_HIS', True), ('cterm_PHE', 'tri_ASN', False), ('pep8', 'tri_ARG', True)]):
+        obs.append(Obligation('O6-pipeline-relabelling[%s+%s%s,alternate locations]' % (first, second, ',TER' if ter else ',no TER'), mk_pipeline_relabelling(first, second, ter, with_altloc=True),
+                              code=['propka/input.py:get_atom_lines_from_pdb', 'propka/molecular_container.py:MolecularContainer.top_up_conformations', 'propka/conformation_container.py:ConformationContainer.sort_atoms_key', 'propka/run.py:single (whole pipeline)'],
+                              bounds='as O6 with one atom of the second chain in two alternate locations (two conformations, topped up); 36 concrete relabellings incl. chain identifiers that sort before the first chain', kind='table-check',
+                              claim_doc='same conformations; groups in file order in every conformation; same groups up to labels; pKa, desolvation, determinants unchanged', max_paths=400, shards=4))
     for first, second, ter in ([('cterm_PHE', 'tri_ASP', False), ('pair_LYS_ASP', 'tri_HIS', True), BR] if tier == 'quick' else
                                [BR, ('cterm_PHE', 'tri_ASP', False), ('cterm_PHE', 'tri_ASP', True), ('pair_LYS_ASP', 'tri_HIS', True), ('pair_LYS_ASP', 'tri_HIS', False), ('cterm_PHE', 'pair_ASP_ARG', False), ('pep8', 'tri_LYS', False)]):
         obs.append(Obligation('O6-pipeline-relabelling[%s+%s%s]' % (first, second, ',TER' if ter else ',no TER'), mk_pipeline_relabelling(first, second, ter),
